@@ -613,7 +613,7 @@ func TestC07(t *testing.T) {
 			}
 			sc.Ops = c07Traffic(rng, 3+rng.Intn(5))
 			for k := rng.Intn(3); k > 0; k-- {
-				sc.Ops = insertOp(rng, sc.Ops, envOp{Kind: "cancel", Arg: []string{"1", "2", "3", "9", `"x"`}[rng.Intn(5)]})
+				sc.Ops = insertOp(rng, sc.Ops, envOp{Kind: "cancel", Arg: []string{"1", "2", "3", "9", `"x"`, `"1"`, `"2"`, "1", "2"}[rng.Intn(9)]})
 			}
 			if rng.Intn(8) == 0 {
 				sc.Ops = insertOp(rng, sc.Ops, envOp{Kind: "stop"})
@@ -640,6 +640,12 @@ func TestC07(t *testing.T) {
 			// the reply to a batch is lost in transport: its calls are over, their ids free again
 			&srvScenario{Concurrency: 2, SendFailAt: 1, Ops: []envOp{{Kind: "send", Arg: c07Mark(0, reqCall(1, "c1", "ok"), reqCall(2, "c2", "err"))}, {Kind: "send", Arg: c07Mark(1, reqCall(1, "c3", "ok"))}, {Kind: "send", Arg: c07Mark(2, reqCall(2, "c4", "ok"))}}},
 			&srvScenario{Concurrency: 2, Ops: []envOp{{Kind: "send", Arg: c07Mark(0, `{"jsonrpc":"2.0","id":"x","method":"m","params":["c1","ok"],"zz":1}`)}, {Kind: "send", Arg: c07Mark(1, reqCall("x", "c2", "ok"))}}},
+		)
+		corpus = append(corpus,
+			// the number 7 and the string "7" are different ids: cancelling the one that is not in flight
+			// leaves the other alone
+			&srvScenario{Concurrency: 2, Ops: []envOp{{Kind: "send", Arg: c07Mark(0, reqCall("7", "Hc1", "ok"))}, {Kind: "cancel", Arg: "7"}, {Kind: "send", Arg: c07Mark(1, reqCall(7, "c2", "ok"))}}},
+			&srvScenario{Concurrency: 2, Ops: []envOp{{Kind: "send", Arg: c07Mark(0, reqCall(7, "Hc1", "ok"))}, {Kind: "cancel", Arg: `"7"`}, {Kind: "send", Arg: c07Mark(1, reqCall("7", "c2", "ok"))}}},
 		)
 		for _, sc := range corpus {
 			for j := 0; j < pick(40, 400); j++ {
@@ -718,6 +724,9 @@ func c07Traffic(rng *rand.Rand, n int) []envOp {
 				return fmt.Sprintf(`{"jsonrpc":"2.0","id":%d,"params":["c%d","ok"]}`, 1+rng.Intn(3), uid)
 			}
 			return fmt.Sprintf(`{"jsonrpc":"2.0","id":%d,"method":"m","params":["c%d","ok"],"zz":1}`, 1+rng.Intn(3), uid)
+		}
+		if rng.Intn(4) == 0 { // a STRING id spelling the same digits as a numeric one: a different id
+			return reqCall(fmt.Sprint(1+rng.Intn(3)), fmt.Sprintf("c%d", uid), []string{"ok", "err", "ok"}[rng.Intn(3)])
 		}
 		return reqCall(1+rng.Intn(3), fmt.Sprintf("c%d", uid), []string{"ok", "err", "ok"}[rng.Intn(3)])
 	}
